@@ -388,10 +388,15 @@ def load_findings(pid):
     return [f for f in data.get("findings", []) if f.get("property") == pid and f.get("status") == "open"]
 
 
+CURRENT = None      # the Check of this process (bin/check.py reports its violations if the machinery fails later)
+
+
 class Check:
     """Bookkeeping of one check run: violations, known findings, evidence."""
 
     def __init__(self, pid, tier, level="model_checking"):
+        global CURRENT
+        CURRENT = self
         self.pid = pid
         self.tier = tier
         self.level = level
